@@ -5,4 +5,4 @@ Require Import ExtrOcamlBasic.
 Extraction "semodel.ml" N_of_digits Z_of_digits digits_of_N tc_lookup tc_name_of
   ctor_top trig_simplify_top signed_expr lin_of_expr trig_of_code
   floor_num ceiling_num truncate_num sign_num abs_num max_fold min_fold
-  levi_eval gamma_int gamma_half primepi_int primorial_int num_of_q num_as_q.
+  kronecker_q levi_eval gamma_int gamma_half primepi_int primorial_int num_of_q num_as_q.
